@@ -1,14 +1,25 @@
 (* C05 - smodels writer and reader are inverses on the smodels-expressible fragment.
-   Model: V.C05.Model (SmodelsOutput, one sm_step per AbstractProgram call) composed with the C07 reader model.
-   PROVED here: exactly the documented cases are refused (c05_refuses); the normal form of a body is a permutation of
-   the body (c05_perm); the leading-'9' probe ambiguity is a refutation witness (c05_probe_refuted).
-   c05_roundtrip_partial: the line written for a basic rule  rule(Disjunctive,[a],body)  (any body, any sign order) is read back by
-   the reader's rule dispatcher as the same rule with the body in negative-first order.
-   MISSING from the full c05_roundtrip (sm_write p = Ok t /\ read_smodels ext t = Ok (sm_norm p)): choice / disjunctive heads, the false
-   atom, cardinality / weight rules, minimize, externals, the symbol table, the compute statement, steps, and the composition of the
-   lines into sections - these are covered by the differential correspondence (model = implementation on every generated program,
-   including the bytes written) and by the independent python normaliser only.  The reader half rests on C07's lemmas. *)
-Require Import V.Lib.Base V.Lib.Calls V.Lib.Dec V.C09.Spec V.Gen.Consts V.Gen.Consts_C07 V.C07.Model V.C07.ProofsLex V.C05.Model V.C05.Proofs V.C05.ProofsRT.
+   Model: V.C05.Model (SmodelsOutput, one sm_step per AbstractProgram call) composed with the C07 reader model (V.C07.Model).
+   Declarative side: V.C05.Spec (refused, in_fragment, sm_norm, the layout the writer uses).
+
+   PROVED here (all closed under the global context):
+   * c05_roundtrip (FULL): every call sequence p of the fragment (in_fragment ext f p = true: init; then per step  begin, (rules | weight rules |
+     minimize | externals)*, output*, [assume], end; all values in range; any number of steps iff incremental + extensions; any false atom f) is
+     written completely and the text is read back (claspExt = ext, any filter flag) as exactly sm_norm f p: bodies stably partitioned
+     negative-first, minimize priorities renumbered in write order with negative weights returned as |w| on the complementary literal,
+     empty heads -> false atom, compute statement (and the false atom, if used) returned as integrity constraints, symbol table / externals /
+     step structure identical.  c05_roundtrip_steps is the same over structured programs (no parser), c05_fragment_complete says the parser
+     behind in_fragment / sm_norm accepts every structured program, c05_parse_sound that it only splits.
+   * (1) per line: c05_rt_line (any call of the rule section) and its instances c05_rt_basic / _choice / _disjunctive / _false_atom /
+     _cardinality / _weight / _false_atom_sum / _minimize / _external: the line written is read back by the reader's rule dispatcher as the normal form.
+   * (2) per section (whole-program corollaries): c05_rt_symbols, c05_rt_compute, c05_rt_compute_false, c05_rt_steps, c05_rt_step_marker, c05_ext_off.
+   * c05_refuses (refused <-> WErr), c05_perm(_weighted), c05_probe_refuted (the one shape excluded from in_fragment: KNOWN finding probe-leading-9).
+   The reader half rests on C07's completeness theorem (V.C07.ProofsTop.complete = c07_complete): the writer's text is shown to be the
+   rendering of a laid-out program (C07/Spec.v) that is layout_ok, in_range and denotes sm_norm p.
+   NOT covered by the theorem (outside the property's quantifier, see notes/C05.md): names containing LF/CR/NUL, negative rule-body weights,
+   minimize/external after symbols, |minimize weight| = 2^31, values outside the C types. *)
+Require Import V.Lib.Base V.Lib.Calls V.Lib.Dec V.C09.Spec V.Gen.Consts V.Gen.Consts_C07 V.C07.Model V.C07.ProofsLex.
+Require Import V.C05.Model V.C05.Spec V.C05.Proofs V.C05.ProofsRT V.C05.ProofsLines V.C05.ProofsComp V.C05.XCheck.
 Require Import Permutation.
 Local Open Scope Z_scope.
 
@@ -25,31 +36,203 @@ Theorem c05_perm_weighted : forall b : list (Z * Z), Permutation (norm_wbody b) 
 Proof. exact norm_wbody_perm. Qed.
 Print Assumptions c05_perm_weighted.
 
-Theorem c05_roundtrip_partial : forall (o : opts) (s : wstate) a b prio r ln,
+(* ================= (3) the round trip ================= *)
+Theorem c05_roundtrip : forall (ext flt : bool) (f : Z) (p : list call), in_fragment ext f p = true ->
+  exists t, sm_run (w_init ext f) p = (t, true) /\ sm_write ext f p = Some t /\
+            read_smodels (mkopts ext flt) t = (sm_norm f p, Ok tt).
+Proof. exact roundtrip. Qed.
+Print Assumptions c05_roundtrip.
+
+(* the same with the normal form computed in ONE pass over the raw call sequence (sm_norm_fold: no parser involved) *)
+Theorem c05_roundtrip_fold : forall (ext flt : bool) (f : Z) (p : list call), in_fragment ext f p = true ->
+  exists t, sm_run (w_init ext f) p = (t, true) /\ read_smodels (mkopts ext flt) t = (sm_norm_fold f p, Ok tt).
+Proof. exact roundtrip_fold. Qed.
+Print Assumptions c05_roundtrip_fold.
+Theorem c05_norm_fold : forall ext f p, in_fragment ext f p = true -> sm_norm_fold f p = sm_norm f p.
+Proof. exact norm_fold_eq. Qed.
+Print Assumptions c05_norm_fold.
+
+(* the same over structured programs: flat_prog inc sts = init(inc); for each step: begin; rules; symbols; [assume]; end *)
+Theorem c05_roundtrip_steps : forall (ext flt : bool) (f : Z) (inc : bool) (sts : list sstep), frag_steps ext f inc sts = true ->
+  sm_run (w_init ext f) (flat_prog inc sts) = (prog_text ext inc f sts, true) /\
+  read_smodels (mkopts ext flt) (prog_text ext inc f sts) = (CInit inc :: flat_map (norm_step f) sts, Ok tt).
+Proof. exact roundtrip_steps. Qed.
+Print Assumptions c05_roundtrip_steps.
+
+(* the parser behind in_fragment / sm_norm only splits the sequence, and accepts every structured program of the fragment *)
+Theorem c05_parse_sound : forall p inc sts, parse p = Some (inc, sts) -> p = flat_prog inc sts.
+Proof. exact parse_sound. Qed.
+Print Assumptions c05_parse_sound.
+Theorem c05_fragment_complete : forall ext f inc sts, frag_steps ext f inc sts = true ->
+  in_fragment ext f (flat_prog inc sts) = true /\ sm_norm f (flat_prog inc sts) = CInit inc :: flat_map (norm_step f) sts.
+Proof. exact fragment_complete. Qed.
+Print Assumptions c05_fragment_complete.
+
+(* non-vacuity: multi-directive programs inside the fragment, and their normal forms *)
+Definition ex_prog : list call :=
+  [CInit false; CBegin; CRule 0 [] [2; -3; 4]; CRule 1 [5; 6] [7; -8]; CRule 0 [1; 2; 3] []; CRule 1 [] [1];
+   CWRule 0 [1] 2 [(2, 0); (-3, 5)]; CWRule 0 [] 1 [(2, 1); (-3, 1)]; CMin 7 [(1, -2); (-2, 3)]; CMin 3 [];
+   COutput [97; 32; 98] [1]; COutput [] [2147483647]; CAssume [1; -2]; CEnd].
+Example c05_ex_in_fragment : in_fragment false 7 ex_prog = true /\
+  sm_norm 7 ex_prog =
+    [CInit false; CBegin; CRule 0 [7] [-3; 2; 4]; CRule 1 [5; 6] [-8; 7]; CRule 0 [1; 2; 3] [];
+     CWRule 0 [1] 2 [(-3, 5); (2, 0)]; CWRule 0 [7] 1 [(-3, 1); (2, 1)]; CMin 0 [(-1, 2); (-2, 3)]; CMin 1 [];
+     COutput [97; 32; 98] [1]; COutput [] [2147483647]; CRule 0 [] [-1]; CRule 0 [] [2]; CRule 0 [] [7]; CEnd].
+Proof. split; vm_compute; reflexivity. Qed.
+Definition ex_inc : list call :=
+  [CInit true; CBegin; CExternal 3 Value_t_True; CRule 0 [1] [-3]; CExternal 4 Value_t_Free; COutput [120] [1]; CEnd;
+   CBegin; CExternal 3 Value_t_Release; CExternal 4 Value_t_False; CRule 1 [2] [1]; CMin 0 [(2, 1)]; CAssume [-2]; CEnd; CBegin; CEnd].
+Example c05_ex_in_fragment_inc : in_fragment true 0 ex_inc = true /\ in_fragment false 0 ex_inc = false /\
+  sm_norm 0 ex_inc =
+    [CInit true; CBegin; CExternal 3 Value_t_True; CRule 0 [1] [-3]; CExternal 4 Value_t_Free; COutput [120] [1]; CEnd;
+     CBegin; CExternal 3 Value_t_Release; CExternal 4 Value_t_False; CRule 1 [2] [1]; CMin 0 [(2, 1)]; CRule 0 [] [2]; CEnd; CBegin; CEnd].
+Proof. repeat split; vm_compute; reflexivity. Qed.
+
+(* the Coq definitions in_fragment / sm_norm agree with the plugin's independent python classifier / normaliser (props/C05.py classify, norm -
+   the oracle that judges the implementation) on a fixed generated sample (coq/C05/XCheck.v, regenerate with props/c05_xcheck_gen.py) *)
+Example c05_spec_matches_oracle : forallb xchk xrows = true /\ length xrows = 160%nat.
+Proof. exact xcheck_ok. Qed.
+
+(* ================= (1) per line ================= *)
+(* any call c of the rule section (rule, weight rule, minimize, external) inside the fragment: the line written is the rule type, then fields t,
+   then LF; the reader's dispatcher on the fields returns the normal form of c and the next minimize priority *)
+Theorem c05_rt_line : forall (o : opts) (f : Z) (s : wstate) (c : call) (rl : V.C07.Spec.lrule) (prio : Z) (r : list Z) (ln : Z),
+  w_sec s = 0 -> w_false s = f -> w_ext s = claspExt o -> frag_rule (claspExt o) f c = true -> lay_rule f c = [rl] -> delim r ->
+  exists t ln', sm_step s c = WOk (if empty_head c then set_fhead s else s) (print_nat (V.C07.Spec.rule_type rl) ++ t ++ eol) /\
+                read_rule o prio (V.C07.Spec.rule_type rl) (amk (t ++ r) ln) = Ok (norm_rule f prio c, amk r ln').
+Proof. exact rt_line. Qed.
+Print Assumptions c05_rt_line.
+
+(* basic rule (type 1) *)
+Theorem c05_rt_basic : forall (o : opts) (s : wstate) a b prio r ln,
   w_sec s = 0 -> atom_rng a = true -> forallb lit_rng b = true -> Z.of_nat (length b) <= 4294967295 -> delim r ->
   exists t ln', sm_step s (CRule Head_t_Disjunctive [a] b) = WOk s (print_nat Sm_Basic ++ t ++ eol) /\
                 read_rule o prio Sm_Basic (amk (t ++ r) ln) = Ok ([CRule Head_t_Disjunctive [a] (norm_body b)], prio, amk r ln').
-Proof.
-  intros o s a b prio r ln Hsec Ha Hb Hlen Hr.
-  destruct (rt_basic o a b prio r ln Ha Hb Hlen Hr) as [ln' E].
-  exists (w_head Head_t_Disjunctive [a] ++ w_body b), ln'. split.
-  - cbn [sm_step]. unfold w_rule. rewrite Hsec. cbn [Z.eqb negb]. rewrite <- app_assoc. reflexivity.
-  - rewrite <- app_assoc. exact E.
-Qed.
-Print Assumptions c05_roundtrip_partial.
-Example c05_roundtrip_partial_nonvacuous : atom_rng 2147483647 = true /\ forallb lit_rng [2; -3; 2147483647; -2147483647] = true.
+Proof. exact rt_basic_line. Qed.
+Print Assumptions c05_rt_basic.
+Example c05_rt_basic_nonvacuous : atom_rng 2147483647 = true /\ forallb lit_rng [2; -3; 2147483647; -2147483647] = true.
 Proof. split; reflexivity. Qed.
 
+(* choice rule (type 3), any non-empty head *)
+Theorem c05_rt_choice : forall (o : opts) s h b prio r ln, w_sec s = 0 -> w_ext s = claspExt o -> h <> [] ->
+  frag_rule (claspExt o) (w_false s) (CRule Head_t_Choice h b) = true -> delim r ->
+  exists t ln', sm_step s (CRule Head_t_Choice h b) = WOk s (print_nat Sm_Choice ++ t ++ eol) /\
+                read_rule o prio Sm_Choice (amk (t ++ r) ln) = Ok ([CRule Head_t_Choice h (norm_body b)], prio, amk r ln').
+Proof. exact rt_choice. Qed.
+Print Assumptions c05_rt_choice.
+(* disjunctive rule (type 8), two or more head atoms *)
+Theorem c05_rt_disjunctive : forall (o : opts) s a a2 h b prio r ln, w_sec s = 0 -> w_ext s = claspExt o ->
+  frag_rule (claspExt o) (w_false s) (CRule Head_t_Disjunctive (a :: a2 :: h) b) = true -> delim r ->
+  exists t ln', sm_step s (CRule Head_t_Disjunctive (a :: a2 :: h) b) = WOk s (print_nat Sm_Disjunctive ++ t ++ eol) /\
+                read_rule o prio Sm_Disjunctive (amk (t ++ r) ln) = Ok ([CRule Head_t_Disjunctive (a :: a2 :: h) (norm_body b)], prio, amk r ln').
+Proof. exact rt_disjunctive. Qed.
+Print Assumptions c05_rt_disjunctive.
+(* integrity constraint: written with the false atom as head; the writer remembers that the false atom is used (for the compute statement) *)
+Theorem c05_rt_false_atom : forall (o : opts) s b prio r ln, w_sec s = 0 -> w_ext s = claspExt o ->
+  frag_rule (claspExt o) (w_false s) (CRule Head_t_Disjunctive [] b) = true -> delim r ->
+  exists t ln', sm_step s (CRule Head_t_Disjunctive [] b) = WOk (set_fhead s) (print_nat Sm_Basic ++ t ++ eol) /\
+                read_rule o prio Sm_Basic (amk (t ++ r) ln) = Ok ([CRule Head_t_Disjunctive [w_false s] (norm_body b)], prio, amk r ln').
+Proof. exact rt_false_atom. Qed.
+Print Assumptions c05_rt_false_atom.
+(* cardinality rule (type 2): all weights 1; the bound follows the counts *)
+Theorem c05_rt_cardinality : forall (o : opts) s a bnd b prio r ln, w_sec s = 0 -> w_ext s = claspExt o -> is_card b = true ->
+  frag_rule (claspExt o) (w_false s) (CWRule Head_t_Disjunctive [a] bnd b) = true -> delim r ->
+  exists t ln', sm_step s (CWRule Head_t_Disjunctive [a] bnd b) = WOk s (print_nat Sm_Cardinality ++ t ++ eol) /\
+                read_rule o prio Sm_Cardinality (amk (t ++ r) ln) = Ok ([CWRule Head_t_Disjunctive [a] bnd (norm_wbody b)], prio, amk r ln').
+Proof. exact rt_cardinality. Qed.
+Print Assumptions c05_rt_cardinality.
+(* weight rule (type 5): some weight differs from 1 (weight 0 included); the bound comes first *)
+Theorem c05_rt_weight : forall (o : opts) s a bnd b prio r ln, w_sec s = 0 -> w_ext s = claspExt o -> is_card b = false ->
+  frag_rule (claspExt o) (w_false s) (CWRule Head_t_Disjunctive [a] bnd b) = true -> delim r ->
+  exists t ln', sm_step s (CWRule Head_t_Disjunctive [a] bnd b) = WOk s (print_nat Sm_Weight ++ t ++ eol) /\
+                read_rule o prio Sm_Weight (amk (t ++ r) ln) = Ok ([CWRule Head_t_Disjunctive [a] bnd (norm_wbody b)], prio, amk r ln').
+Proof. exact rt_weight. Qed.
+Print Assumptions c05_rt_weight.
+Example c05_rt_weight_nonvacuous : frag_rule false 0 (CWRule 0 [1] 2147483647 [(2, 0); (-3, 2147483647); (4, 1)]) = true /\
+  is_card [(2, 0); (-3, 2147483647); (4, 1)] = false /\ frag_rule false 0 (CWRule 0 [1] 0 [(2, 1); (-3, 1)]) = true /\ is_card [(2, 1); (-3, 1)] = true.
+Proof. repeat split; reflexivity. Qed.
+(* a sum rule with an empty head *)
+Theorem c05_rt_false_atom_sum : forall (o : opts) s bnd b prio r ln, w_sec s = 0 -> w_ext s = claspExt o ->
+  frag_rule (claspExt o) (w_false s) (CWRule Head_t_Disjunctive [] bnd b) = true -> delim r ->
+  exists t ln', sm_step s (CWRule Head_t_Disjunctive [] bnd b) = WOk (set_fhead s) (print_nat (if is_card b then Sm_Cardinality else Sm_Weight) ++ t ++ eol) /\
+                read_rule o prio (if is_card b then Sm_Cardinality else Sm_Weight) (amk (t ++ r) ln)
+                = Ok ([CWRule Head_t_Disjunctive [w_false s] bnd (norm_wbody b)], prio, amk r ln').
+Proof. exact rt_false_atom_sum. Qed.
+Print Assumptions c05_rt_false_atom_sum.
+(* minimize (type 6): bound 0; (l, w) with w < 0 comes back as (-l, -w); priority = number of minimize lines read before *)
+Theorem c05_rt_minimize : forall (o : opts) s p l prio r ln, w_sec s = 0 -> w_ext s = claspExt o ->
+  frag_rule (claspExt o) (w_false s) (CMin p l) = true -> delim r ->
+  exists t ln', sm_step s (CMin p l) = WOk s (print_nat Sm_Optimize ++ t ++ eol) /\
+                read_rule o prio Sm_Optimize (amk (t ++ r) ln) = Ok ([CMin prio (norm_min l)], prio + 1, amk r ln').
+Proof. exact rt_minimize. Qed.
+Print Assumptions c05_rt_minimize.
+Example c05_rt_minimize_nonvacuous : frag_rule false 0 (CMin 5 [(1, -2147483647); (-2, 0); (3, 4)]) = true /\
+  norm_min [(1, -2147483647); (-2, 0); (3, 4)] = [(-1, 2147483647); (-2, 0); (3, 4)].
+Proof. split; reflexivity. Qed.
+(* externals (types 91 / 92): value coding (v xor 3) - 1 *)
+Theorem c05_rt_external : forall (o : opts) s a v prio r ln, w_sec s = 0 -> w_ext s = claspExt o ->
+  frag_rule (claspExt o) (w_false s) (CExternal a v) = true -> delim r ->
+  exists t ln', sm_step s (CExternal a v) = WOk s (print_nat (if v =? Value_t_Release then Sm_ClaspReleaseExt else Sm_ClaspAssignExt) ++ t ++ eol) /\
+                read_rule o prio (if v =? Value_t_Release then Sm_ClaspReleaseExt else Sm_ClaspAssignExt) (amk (t ++ r) ln)
+                = Ok ([CExternal a v], prio, amk r ln').
+Proof. exact rt_external. Qed.
+Print Assumptions c05_rt_external.
+
+(* ================= (2) per section ================= *)
+(* symbol table: entries for single atoms with names free of LF / CR / NUL (any other bytes, also empty names) come back identically *)
+Theorem c05_rt_symbols : forall (ext flt : bool) f syms, forallb frag_sym syms = true ->
+  exists t, sm_run (w_init ext f) ([CInit false; CBegin] ++ syms ++ [CEnd]) = (t, true) /\
+            read_smodels (mkopts ext flt) t = ([CInit false; CBegin] ++ syms ++ [CEnd], Ok tt).
+Proof. exact rt_symbols. Qed.
+Print Assumptions c05_rt_symbols.
+(* compute statement: assume(l) comes back as integrity constraints, B+ first then B- *)
+Theorem c05_rt_compute : forall (ext flt : bool) f lits, forallb lit_rng lits = true ->
+  exists t, sm_run (w_init ext f) [CInit false; CBegin; CAssume lits; CEnd] = (t, true) /\
+            read_smodels (mkopts ext flt) t = ([CInit false; CBegin] ++ norm_assume lits ++ [CEnd], Ok tt).
+Proof. exact rt_compute. Qed.
+Print Assumptions c05_rt_compute.
+(* ... and when an integrity constraint was written, the false atom is listed in B- and comes back as  :- f *)
+Theorem c05_rt_compute_false : forall (ext flt : bool) f b lits,
+  atom_rng f = true -> forallb lit_rng b = true -> len_ok b = true -> forallb lit_rng lits = true ->
+  exists t, sm_run (w_init ext f) [CInit false; CBegin; CRule Head_t_Disjunctive [] b; CAssume lits; CEnd] = (t, true) /\
+            read_smodels (mkopts ext flt) t =
+              ([CInit false; CBegin; CRule Head_t_Disjunctive [f] (norm_body b)] ++ norm_assume lits ++ [CRule Head_t_Disjunctive [] [f]; CEnd], Ok tt).
+Proof. exact rt_compute_false. Qed.
+Print Assumptions c05_rt_compute_false.
+(* step structure with the extensions: any number of steps, the text starts with '9' ("90 0") *)
+Theorem c05_rt_steps : forall (flt : bool) f sts, forallb (frag_step true f) sts = true -> sts <> [] ->
+  exists t, sm_run (w_init true f) (flat_prog true sts) = (t, true) /\ hd 0 t = 57 /\
+            read_smodels (mkopts true flt) t = (CInit true :: flat_map (norm_step f) sts, Ok tt).
+Proof. exact rt_steps. Qed.
+Print Assumptions c05_rt_steps.
+Theorem c05_rt_step_marker : forall (o : opts) s prio r ln, w_ext s = true -> w_inc s = true -> claspExt o = true -> delim r ->
+  exists s1 t ln', sm_step s CBegin = WOk s1 (print_nat Sm_ClaspIncrement ++ t ++ eol) /\ w_sec s1 = 0 /\ w_fhead s1 = false /\
+                   read_rule o prio Sm_ClaspIncrement (amk (t ++ r) ln) = Ok ([], prio, amk r ln').
+Proof. exact rt_step_marker. Qed.
+Print Assumptions c05_rt_step_marker.
+(* extensions off: externals and incremental programs are refused, begin writes no step marker *)
+Theorem c05_ext_off : forall s, w_ext s = false ->
+  (forall a v, sm_step s (CExternal a v) = WErr) /\ sm_step s (CInit true) = WErr /\ (exists s1, sm_step s CBegin = WOk s1 []).
+Proof. exact ext_off. Qed.
+Print Assumptions c05_ext_off.
+
 (* KNOWN FINDING (judgement call, not repaired): a non-incremental extended program whose first line is an external
-   directive comes back with initProgram(true) - every other call is identical *)
+   directive comes back with initProgram(true) - every other call is identical.  This shape is excluded from in_fragment (first_ext). *)
+(* GENERAL form of the finding: with the probe shape admitted (frag_steps_probe = frag_steps without the first_ext exclusion) the program is still
+   written completely and every call comes back as the normal form - the ONLY deviation is the incremental flag of init, which is true exactly when
+   the program is incremental or (probe) its first written line is an external directive *)
+Theorem c05_roundtrip_probe : forall (ext flt : bool) (f : Z) (inc : bool) (sts : list sstep), frag_steps_probe ext f inc sts = true ->
+  sm_run (w_init ext f) (flat_prog inc sts) = (prog_text ext inc f sts, true) /\
+  read_smodels (mkopts ext flt) (prog_text ext inc f sts) = (CInit (inc || probe inc sts) :: flat_map (norm_step f) sts, Ok tt).
+Proof. exact roundtrip_steps_probe. Qed.
+Print Assumptions c05_roundtrip_probe.
 Definition probe_prog : list call := [CInit false; CBegin; CExternal 3 Value_t_True; CRule 0 [1] []; CEnd].
-Theorem c05_probe_refuted : exists p, hd CBegin p = CInit false /\
+Theorem c05_probe_refuted : exists p, hd CBegin p = CInit false /\ in_fragment true 0 p = false /\
   fst (read_smodels (mkopts true false) (fst (sm_run (w_init true 0) p))) = CInit true :: tl p.
-Proof. exists probe_prog. split; vm_compute; reflexivity. Qed.
+Proof. exists probe_prog. repeat split; vm_compute; reflexivity. Qed.
 Print Assumptions c05_probe_refuted.
 
-(* non-vacuity / smoke: a program of the fragment with a false atom, a weight rule with weight 0, a minimize statement with a
-   negative weight and a compute statement is written and read back as its normal form *)
+(* smoke: writer + reader computed on a program of the fragment *)
 Example c05_ex_roundtrip :
   let p := [CInit false; CBegin; CRule 0 [] [2; -3; 4]; CWRule 0 [1] 2 [(2, 0); (-3, 5)]; CMin 7 [(1, -2); (-2, 3)];
             COutput [97; 32; 98] [1]; CAssume [1; -2]; CEnd] in
